@@ -72,15 +72,17 @@ func (x *exec) verifyPristine(opt Options) {
 
 // exec is the common state of one scenario execution.
 type exec struct {
-	s      *scn.Scenario
-	sim    *Sim
-	docs   []*world.Doc
-	shared []*xpath.Expr // compiled once per scenario, used by every operation
-	res    *Result
-	solos  map[string]Outcome
-	soloK  []soloKey
-	cache  *cacheModel
-	stop   bool // global state is wedged (modelled deadlock): stop executing
+	s        *scn.Scenario
+	sim      *Sim
+	docs     []*world.Doc
+	shared   []*xpath.Expr // compiled once per scenario, used by every operation
+	res      *Result
+	solos    map[string]Outcome
+	soloK    []soloKey
+	cache    *cacheModel
+	stop     bool // global state is wedged (modelled deadlock): stop executing
+	raceLog  *RaceLog
+	raceMark int64
 	// per shared expression: operations whose result was compared with the oracle
 	usedCompared map[int]int
 }
@@ -143,6 +145,13 @@ func (x *exec) end(e *Env) {
 	x.sim.hash = mix(x.sim.hash, e.hash, uint64(e.Steps))
 	if e.Crashed {
 		x.res.Stats.Faults["nav-panic"]++
+	}
+	// on one goroutine an operation that has ended (normally, by an error or by
+	// a panic the caller recovered from) must have released every lock it took:
+	// a lock still held now blocks every later call for ever
+	if x.sim.mode == 'H' && !x.stop && x.sim.locks.anyHeld() {
+		x.stop = true
+		x.viol("deadlock", "deadlock:lock-held-after-operation", "an operation ended (possibly by a panic of the client's navigator or loader) and left a lock of the package held: every later call that needs it blocks for ever", -1)
 	}
 }
 
